@@ -665,7 +665,7 @@ func rulePublishedImmutable(c *Ctx, r *R) {
 
 var _ = late(func() {
 	properties["C18"].Rules = append(properties["C18"].Rules,
-		&Rule{ID: "C18.published-immutable", Floor: 2, Clause: "an object handed to atomic.Pointer Store / Swap / CompareAndSwap in xsync (Watchable's cells) is complete before the call: no field of it is written on any path after the publication", Run: rulePublishedImmutable})
+		&Rule{ID: "C18.published-immutable", Floor: 2, Clause: "an object handed to atomic.Pointer Store / Swap / CompareAndSwap in xsync (Watchable's cells) is complete before the call: no field of it is written on any path after the publication, and none through a cell obtained from Load / Swap", Run: rulePublishedImmutable})
 })
 
 // no-blocking-under-lock (C14-r8m2): the dispatcher, the workers and the consumer of MapIterator hand items to each other over
